@@ -32,6 +32,7 @@ pub struct Info {
     pub payout_blocks: usize,
     pub second_generation: usize,
     pub spend_probes: usize,
+    pub nft_rebroadcast: usize,
     pub reorg_over_edge: usize,
 }
 
@@ -56,12 +57,30 @@ fn check_edge_block(b: &Block, before: &RefLedger, gp: u64, info: &mut Info) -> 
         if t.transaction_type != TransactionType::ATR {
             continue;
         }
-        // single-slip rebroadcast (NFT triples are not generated)
-        if t.from.len() != 1 || t.to.len() != 1 {
+        // single-slip rebroadcast, or the rebroadcast of an NFT group [Bound, payload, Bound] whose
+        // payload slip carries the value
+        let triple = t.from.len() == 3
+            && t.to.len() == 3
+            && t.from[0].slip_type == SlipType::Bound
+            && t.from[2].slip_type == SlipType::Bound
+            && t.from[1].slip_type != SlipType::Bound;
+        if !(triple || (t.from.len() == 1 && t.to.len() == 1)) {
             v.push(("C13|atr_shape".into(), format!("block id {} tx {}: rebroadcast transaction with {} inputs / {} outputs", b.id, ti, t.from.len(), t.to.len())));
             continue;
         }
-        let (f, o) = (&t.from[0], &t.to[0]);
+        let (f, o) = if triple { (&t.from[1], &t.to[1]) } else { (&t.from[0], &t.to[0]) };
+        if triple {
+            info.nft_rebroadcast += 1;
+            for (i, j) in [(0usize, 0usize), (2, 2)] {
+                let (bi, bo) = (&t.from[i], &t.to[j]);
+                if bo.slip_type != SlipType::Bound || bo.public_key != bi.public_key || bo.amount != bi.amount {
+                    v.push(("C13|nft_bound_slip_changed".into(), format!("block id {} tx {}: bound slip {} of a rebroadcast NFT group is not carried over unchanged", b.id, ti, i)));
+                }
+                if bi.block_id != f.block_id || bi.tx_ordinal != f.tx_ordinal || (bi.slip_index as i32 - f.slip_index as i32).abs() != 1 {
+                    v.push(("C13|nft_group_not_adjacent".into(), format!("block id {} tx {}: bound slip {} does not sit next to the payload slip in the original transaction", b.id, ti, i)));
+                }
+            }
+        }
         let m: Vec<&(&UKey, &RefEntry)> = u.iter().filter(|(_, e)| same_coordinates(e, f)).collect();
         if m.is_empty() {
             v.push((
@@ -230,6 +249,7 @@ fn eval(c: &mut Ctx, case: &Case, counting: bool) -> Vec<(String, String)> {
             (info.payout_blocks, "blocks_with_treasury_payout"),
             (info.second_generation, "second_generation_rebroadcasts"),
             (info.spend_probes, "expired_spend_probes"),
+            (info.nft_rebroadcast, "nft_group_rebroadcasts"),
             (info.reorg_over_edge, "reorgs_across_window_edge"),
         ] {
             if n > 0 {
@@ -272,7 +292,7 @@ pub fn arb_case(max_blocks: usize) -> impl Strategy<Value = Case> {
 
 pub fn run(ctx: &mut Ctx) {
     ctx.rule = "honest histories of up to 40 blocks with gp in {4,5,6,8} (two and more window wraps), fee-paying transactions (fee-per-byte > 0 so that tiny outputs become dust), both genesis treasuries (payout multiplier 1 and > 1, 5% cap), occasional forks (reorganisations across the window edge), delivered to a node; for every block that becomes part of the longest chain at height h > gp+1, with U = outputs of the on-chain block h-gp-1 still unspent in the independent reference ledger just before h: every rebroadcast transaction refers to exactly one member of U (same coordinates), none twice, none outside U, pays the same owner an ATR-typed output <= value plus payout, the payouts sum to the treasury debit, and rebroadcast fees + value of the members of U that are not rebroadcast == total_fees_atr; afterwards a spend of an output older than the window (probed with real signed transactions through the pool entry) is refused. evaluations = window-edge blocks checked. non-trivial = a block whose U contains both a rebroadcast and a dust output; distinct by case digest".into();
-    ctx.assumptions.push("NFT-style bound triples are not generated (the wallet's bound-transaction builder is not driven).".into());
+    ctx.assumptions.push("NFT groups are created (one generated transaction in ten, laid out like Wallet::create_bound_transaction) and rebroadcast; NFT transfers are not generated.".into());
     let cases = ctx.tier.pick(300u32, 12_000);
     pbt_run(ctx, "window_edge", cases, arb_case(40), |c, case, counting| eval(c, case, counting));
 }
